@@ -424,8 +424,7 @@ def _bits_args(f, callee):
 
 # ----------------------------------------------------------------------------- .4
 
-def c4_plyshift(fb, rep):
-    clause = 'C08.4'
+def c4_plyshift(fb, rep, clause='C08.4'):
     g = fb.find1(ENT + '::getScore')
     s = fb.find1(ENT + '::setScore')
     if not rep.need(clause, g, ENT + '::getScore') or not rep.need(clause, s, ENT + '::setScore'):
@@ -486,26 +485,7 @@ def c4_plyshift(fb, rep):
 
 # ----------------------------------------------------------------------------- .5
 
-def c5_bucket(fb, rep):
-    clause = 'C08.5'
-    bounds = {}
-    for name in (TT + '::probe', TT + '::insert'):
-        f = fb.find1(name)
-        if not rep.need(clause, f, name):
-            continue
-        bs = set()
-        for bid, blk in f.blocks.items():
-            t = blk.get('term')
-            if t and t.get('c') == 'ForStmt' and isinstance(t.get('cond'), dict) and t['cond'].get('op') == '<':
-                r = _strip(t['cond'].get('r'))
-                if isinstance(r, dict) and 'cv' in r:
-                    bs.add(r['cv'])
-        bounds[name] = bs
-        rep.ob(clause, 'K11 constant agreement', '%s: bucket loop bound is 4' % name.split('::')[-1], bs == {4}, f.where, str(sorted(bs)), name)
-    su = fb.find1(TT + '::setUsedSize')
-    if rep.need(clause, su, TT + '::setUsedSize'):
-        inv = {n['e']['cv'] for _, _, e in su.events() for n in walk(e) if n.get('k') == 'un' and n.get('op') == '~' and 'cv' in (n.get('e') or {})}
-        rep.ob(clause, 'K11 constant agreement', 'setUsedSize: low-bit mask clears exactly bucket-1 (~3)', inv == {3}, su.where, str(sorted(inv)), su.sname)
+def restore_ply_agreement(fb, rep, clause):
     # a score decoded at ply p and stored again is encoded at the same ply (re-store sites such as setBusy)
     n_re = 0
     for f in sorted(fb.funcs.values(), key=lambda x: x.key):
@@ -529,6 +509,29 @@ def c5_bucket(fb, rep):
                     rep.ob(clause, 'K10 sibling agreement', '%s: a score decoded with getScore(ply) is stored again at the same ply' % f.sname, same, R.site(f, e),
                            'decoded at %s, stored at %s' % (show(p_read), show(a[3])), f.sname)
     rep.floor(clause, 're-store sites of a decoded score', n_re, 1)
+
+
+def c5_bucket(fb, rep):
+    clause = 'C08.5'
+    bounds = {}
+    for name in (TT + '::probe', TT + '::insert'):
+        f = fb.find1(name)
+        if not rep.need(clause, f, name):
+            continue
+        bs = set()
+        for bid, blk in f.blocks.items():
+            t = blk.get('term')
+            if t and t.get('c') == 'ForStmt' and isinstance(t.get('cond'), dict) and t['cond'].get('op') == '<':
+                r = _strip(t['cond'].get('r'))
+                if isinstance(r, dict) and 'cv' in r:
+                    bs.add(r['cv'])
+        bounds[name] = bs
+        rep.ob(clause, 'K11 constant agreement', '%s: bucket loop bound is 4' % name.split('::')[-1], bs == {4}, f.where, str(sorted(bs)), name)
+    su = fb.find1(TT + '::setUsedSize')
+    if rep.need(clause, su, TT + '::setUsedSize'):
+        inv = {n['e']['cv'] for _, _, e in su.events() for n in walk(e) if n.get('k') == 'un' and n.get('op') == '~' and 'cv' in (n.get('e') or {})}
+        rep.ob(clause, 'K11 constant agreement', 'setUsedSize: low-bit mask clears exactly bucket-1 (~3)', inv == {3}, su.where, str(sorted(inv)), su.sname)
+    restore_ply_agreement(fb, rep, clause)
     rs = fb.find1(TT + '::reSize')
     if rep.need(clause, rs, TT + '::reSize'):
         inv = {n['e']['cv'] for _, _, e in rs.events() for n in walk(e) if n.get('k') == 'un' and n.get('op') == '~' and 'cv' in (n.get('e') or {})}
